@@ -11,8 +11,11 @@ import (
 
 var props = map[string]func(tier string) []Scen{
 	"C01": scenariosC01,
+	"C02": scenariosC02,
+	"C03": scenariosC03,
 	"C04": scenariosC04,
 	"C10": scenariosC10,
+	"C11": scenariosC11,
 	"C12": scenariosC12,
 	"C13": scenariosC13,
 	"C14": scenariosC14,
@@ -30,6 +33,9 @@ var rules = map[string]string{
 	"C13": ruleA + "; scenarios = all histories up to the length bound over {register(name, description) for 6 name/description pairs incl. duplicates, the built-in name and a resolver, serve, shutdown, query}; a query runs the library's own client helpers (GetInfo, GetInterfaceDescription for every mentioned name, its prefix, case variant and extension, Resolver.GetInfo/Resolve) over a controlled connection and compares with a list+map reference model",
 	"C04": "bounded-exhaustive enumeration executed on the real Service under the controlled scheduler (default schedule): every dot-joined sequence of <=4 tokens over {empty, a, b, A, é, org, varlink, service, GetInfo} plus near-misses (prefix, extension, case variant, doubled/leading/trailing dots, spaces) of every registrable name, against every set of <=3 registered names out of 7; one scenario = one batch of 400 method strings sent on one connection (so each answer also shows the connection stayed usable) or the family of 21 frames that are not calls, each on its own connection followed by a GetInfo; oracle = independent routing model (strings.Split) + per-dispatcher invocation log; states = distinct (set, batch) cases, transitions = scheduling steps; distinct_nontrivial = distinct observations",
 	"C12": "bounded-exhaustive enumeration executed on the real Service and Connection under the controlled scheduler (default schedule): every dot-joined error name of <=4 (thorough <=5) tokens over {empty, org, varlink, service, x, E, é} plus near-misses of the reserved namespace x 5 parameter documents (none, {}, nested, unicode, integer beyond 2^53 and an exponent), sent by a handler through ReplyError and received through Connection.Call; the four typed helpers x 4 argument strings; and the client mapping alone against a scripted raw server (well-shaped, absent, null and ill-shaped parameters); oracle = independent name classifier + raw-JSON equality (numbers as text) + wire frame; names whose last part is empty are counted as unspecified",
+	"C11": "bounded-exhaustive enumeration with fault enumeration, executed on the real Connection under the controlled scheduler (default schedule): reply streams of <=2 frames over 19 frame kinds (well-shaped, error, typed error, null, wrong JSON type, wrong member type, truncated, non-UTF-8, empty, 70 KiB) x {server closes, server resets} after EVERY byte offset, and the full stream under every single cut; APIs Send+receive (receive called once more than there are frames), Call, Upgrade; all 16 flag words; one scenario = one stream x mode, looping over all offsets on fresh connections; oracle = independent reply classifier; states = distinct cases (stream, mode, api), transitions = scheduling steps",
+	"C02": "bounded-exhaustive enumeration executed on the real Connection and Service under the controlled scheduler (default schedule). Emission: every value of an adversarial alphabet (strings with NUL, quotes, every C0 control, non-BMP, invalid UTF-8, each also as object key; nesting 1..2000; strings/arrays at 4095/4096/4097/65535/65536/1 MiB (thorough 4 and 8 MiB); big integers as raw JSON; unencodable values) travels as call parameter, reply, more-reply, error parameter and inside a built-in error reply; both captured byte streams must split at NUL into syntactically valid JSON objects (checked by an independent recogniser, not encoding/json), end in NUL, contain no empty piece, and every write is one frame. Reception: message sequences over sizes {60, 4095, 4096, 4097, 70000} in both directions under no cut, every single cut at all/boundary offsets, cut pairs, and one byte per segment; the recovered sequence must equal the sent one",
+	"C03": "bounded-exhaustive enumeration executed on the real Connection and Service under the controlled scheduler (default schedule): all JSON objects with <=2 members over keys {a, é, empty} whose values are built to depth 1 (thorough 2) from 15 leaves (null, booleans, 0, -0, -1, 2^53+1, 2^64, 1.5, 1E+2, 1e-7, empty string, a string with é NUL and a non-BMP character, {}, []) plus hand-picked texts (whitespace, escapes, 1e400), sent as raw JSON through Call and Send+receive, echoed by a handler that reads them with GetParameters; all more-sequences of length 0..3 over 4 documents; typed Go values (int64/uint64 extremes, floats, maps, optional members); oracle = raw-JSON equality (token-wise, numbers compared as text) at the handler and at the client, continues on all replies but the last",
 	"C14": ruleA,
 	"C18": "bounded-exhaustive enumeration, each case executed once (default schedule; end-to-end cases with up to 2 schedule deviations) on the real ctxio.Conn over a controlled connection: all words up to the length bound over {ReadBytes(NUL), Read(1), Read(2), Read(7), Read(4096), Read(8192)} x 13 streams (0-2 frames incl. 4095/4096/4097-byte frames, payloads incl. one containing NUL and one larger than the reader's buffer) x segmentations (none, every 1-cut, 2-cuts, one byte per segment; boundary offsets for long streams); oracle = cursor into the stream; states = distinct cases, transitions = scheduling steps, distinct_nontrivial = distinct observations",
 	"C17": ruleA + "; scenarios = sequences of <=3 operations {ReadBytes, raw Read, Write} on a ctxio connection, the first 1-2 under a cancellable context x cancel|deadline x 3 segmentations of the peer stream x a coarse gate (operation index, chunks written) after which the cancellation step becomes enabled; the scheduler then places the cancellation (and, for deadlines, the connection's own deadline expiry, in both orders) at every point within the bound",
@@ -38,6 +44,9 @@ var rules = map[string]string{
 }
 
 var assumptions = map[string][]string{
+	"C03": {"documents are passed as json.RawMessage so that digit-for-digit is meaningful; typed values go through encoding/json on both ends", "this part runs on the controlled in-memory transport; the four real transports are exercised by the transport stage (hb) with the depth-1 alphabet"},
+	"C02": {"values are an alphabet chosen around escaping rules and buffer sizes, not all JSON documents; multi-megabyte values only at the listed sizes", "segment boundaries are exactly the listed cuts (vnet returns at most one segment per read)"},
+	"C11": {"refReply restates the reply shape with encoding/json as a generic decoder; {\"error\":\"\"} is counted as unspecified", "after a reset any error is accepted for an incomplete frame; after an orderly close it must be io.ErrUnexpectedEOF", "out parameters are decoded into interface{}"},
 	"C12": {"names and parameters come from alphabets (valid UTF-8); raw-JSON equality uses encoding/json as a generic decoder with UseNumber", "ill-shaped parameters of org.varlink.service errors: only 'an error naming it, no panic' is required"},
 	"C04": {"method strings are valid UTF-8 over the token alphabet; the replies of the two real built-in methods are only checked for being exactly one reply (their content is C13's)", "classifyCall decides which frames are calls"},
 	"C18": {"a read on the controlled connection returns (a prefix of) the oldest unread segment, so segment boundaries are exactly the listed cuts; Coalesce models the network merging two writes", "streams are a small alphabet chosen around the 4096-byte bufio buffer"},
